@@ -8,7 +8,8 @@ name=$1; wt=$2; shift 2
 cd "$(dirname "$0")"
 d=seeded/$name
 mkdir -p $d
-git -C $wt diff -- . ':(exclude)*_test.go' > $d/patch.diff
+git -C $wt diff -- . ':(exclude)*_test.go' > $d/patch.diff.new
+if [ -s $d/patch.diff.new ]; then mv $d/patch.diff.new $d/patch.diff; else rm -f $d/patch.diff.new; echo "worktree holds no change: keeping the stored patch.diff"; [ -s $d/patch.diff ] && git -C $wt apply $d/patch.diff; fi
 for f in $(git -C $wt ls-files --others --exclude-standard | grep -v "\.patch$"); do
   case "$f" in MUTANT.md) cp $wt/$f $d/MUTANT.md;; *) mkdir -p $d/demo/$(dirname $f); cp $wt/$f $d/demo/$f;; esac
 done
@@ -17,7 +18,7 @@ if [ ! -s $d/patch.diff ]; then echo "EMPTY PATCH"; exit 2; fi
 base=$(git -C $wt rev-parse HEAD); head=$(git -C /repo rev-parse HEAD)
 if [ "$base" != "$head" ]; then
   git -C $wt diff > /tmp/mut_rebase_$name.patch; git -C $wt checkout -q -- .; git -C $wt checkout -q --detach $head || { echo "cannot move worktree to HEAD"; exit 2; }
-  git -C $wt apply /tmp/mut_rebase_$name.patch || { echo "change does not apply on /repo HEAD"; exit 2; }
+  git -C $wt apply /tmp/mut_rebase_$name.patch || { echo "change does not apply on /repo HEAD"; git -C $wt checkout -q --detach $base; git -C $wt apply /tmp/mut_rebase_$name.patch; exit 2; }
   rm -f /tmp/mut_rebase_$name.patch
 fi
 v=/tmp/verif-mut-$name
